@@ -13,13 +13,13 @@ TYPES = ['int', 'integer', 'varchar', 'varchar(255)', 'numeric(10,2)', 'numeric(
          'decimal(1,2)', '"my type"', 'character varying']   # the last two only in quoted form
 NOTES = ['a note', 'x', 'two words', 'line one\nline two', 'first\n\nthird after empty', 'é 中 💸', "it's", 'say "hi"',
          'tick ` tock', 'hash # not comment', 'slash // not comment', 'a {brace}', 'indented\n  more\n    most',
-         'ends with quote\'', "'''triple inside'''", 'zero\ufeffwidth\ufeffjoiner',
+         'ends with quote\'', "'''triple inside'''", 'zero\ufeffwidth\ufeffjoiner', ' ', '  ', 'x\n   \ny', 'form\x0cfeed', 'line\u2028separator\x85nel',
          'a single line that is rather long: ' + 'lorem ipsum dolor sit amet ' * 6, 'back\\\\slash', "two lines\nends with quote'", "four '''' quotes\nsecond line"]
 ACTIONS = ['cascade', 'restrict', 'set null', 'set default', 'no action']
 INDEX_TYPES = ['btree', 'hash', 'gin', 'gist', 'brin', 'spgist']
 COLORS = ['#fff', '#AbCdEf', '#123456', '#000']
 COMMENTS = ['a comment', 'c', 'two words here', 'with # and \' and "', 'second line', 'stars **', '*', 'x */ y'.replace(' */', ''),
-            'path C:\\legacy\\dumps\\', 'ends with backslash \\', '{auto} payload: {"done": true}']
+            'path C:\\legacy\\dumps\\', 'ends with backslash \\', '{auto} payload: {"done": true}', 'was:\u2028login varchar', 'ff\x0cafter']
 
 
 class safe_pools:
@@ -237,10 +237,10 @@ def gen_schema(r, size=None, features=1.0):
 def add_properties(r, A):
     for t in A['tables']:
         if r.random() < 0.5:
-            t['props'] = [(k, r.choice(NOTES + [''])) for k in r.sample(['owner', 'my key', 'k2', 'Unique_key'], r.randint(1, 2))]
+            t['props'] = [(k, r.choice(NOTES + ['', '    four leading spaces', '\u3000ideographic space first', 'trailing  '])) for k in r.sample(['owner', 'my key', 'k2', 'Unique_key'], r.randint(1, 2))]
         for c in t['columns']:
             if r.random() < 0.3:
-                c['props'] = [(k, r.choice(NOTES + ['']).replace('\n', ' ')) for k in r.sample(['ck', 'col key', 'z'], r.randint(1, 2))]
+                c['props'] = [(k, r.choice(NOTES + ['', '    four leading spaces', 'trailing  ']).replace('\n', ' ')) for k in r.sample(['ck', 'col key', 'z'], r.randint(1, 2))]
 
 
 def add_comments(r, A):
@@ -694,6 +694,10 @@ def restrict_for_roundtrip(A):
         if t is None:
             return None
         t = t.replace('\\', '/')                                  # D10 backslash is rendered raw
+        if '\n' in t:
+            t = '\n'.join(l if l.strip() else '' for l in t.split('\n'))  # D14 interior whitespace-only lines lose their blanks
+        for ch_ in '\x0b\x0c\x1c\x1d\x1e\x85\u2028\u2029':
+            t = t.replace(ch_, ' ')                              # D38 textwrap.indent treats these as line ends
         if single_line:
             t = t.replace('\n', ' ')                              # D13 multi-line text in settings position drifts
         if no_sq:
@@ -741,6 +745,27 @@ def restrict_for_roundtrip(A):
             x['name'] = bare(x['name'], 'fkx_%d' % n)            # D8 reference names are rendered bare (the substitute is not a name of the pool)
     for g in A['groups']:
         g['note'] = clean(g['note'])
+    # D38 applies to comments as well (they are rendered inside indented bodies)
+    def clean_comment(x):
+        if x.get('comment'):
+            for ch_ in '\x0b\x0c\x1c\x1d\x1e\x85\u2028\u2029':
+                x['comment'] = x['comment'].replace(ch_, ' ')
+    for e in A['enums']:
+        clean_comment(e)
+        for i in e['items']:
+            clean_comment(i)
+    for t in A['tables']:
+        clean_comment(t)
+        for c in t['columns']:
+            clean_comment(c)
+        for i in t['indexes']:
+            clean_comment(i)
+    for x in A['refs']:
+        clean_comment(x)
+    for g in A['groups']:
+        clean_comment(g)
+    if A['project']:
+        clean_comment(A['project'])
     for n, s_ in enumerate(A['stickies']):
         s_['name'] = bare(s_['name'], 'sticky_%d' % n)           # D8 sticky note names are rendered bare
         s_['text'] = clean(s_['text'])
